@@ -818,6 +818,57 @@ func c02Cause(c *Ctx, r *Report) {
 	if nPartial == 0 || nNormal == 0 {
 		r.viol("C02.R4", key+"|causes", c.rel(f.Pos()), "expected a cause for the partial and for the normal edge")
 	}
+	// every successful exit has set the cause in the record: a closure that reports success but keeps
+	// whatever cause the record carried (a record re-opened after a partial closure still says 1)
+	// files a released session as a partial record
+	setBlocks := map[*ssa.BasicBlock]bool{}
+	eachInstr(f, func(b *ssa.BasicBlock, _ int, ins ssa.Instruction) {
+		st, ok := ins.(*ssa.Store)
+		if !ok {
+			return
+		}
+		hit := false
+		var x ssa.Value = st.Addr
+		for {
+			fa, ok := x.(*ssa.FieldAddr)
+			if !ok {
+				break
+			}
+			if fieldName(fa) == "CauseForRecClosing" {
+				hit = true
+			}
+			x = fa.X
+		}
+		if a, isLocal := x.(*ssa.Alloc); hit && !(isLocal && !a.Heap) {
+			setBlocks[b] = true
+		}
+	})
+	if len(setBlocks) > 0 && len(f.Blocks) > 0 {
+		unset := reachableFrom(f.Blocks[0], nil, nil, setBlocks)
+		nExit := 0
+		for _, b := range f.Blocks {
+			if len(b.Instrs) == 0 {
+				continue
+			}
+			ret, ok := b.Instrs[len(b.Instrs)-1].(*ssa.Return)
+			if !ok || len(ret.Results) == 0 {
+				continue
+			}
+			for _, lf := range leavesOf(ret.Results[len(ret.Results)-1]) {
+				if k, isC := lf.val.(*ssa.Const); !isC || k.Value != nil {
+					continue
+				}
+				exit := b
+				if lf.from != nil {
+					exit = lf.from
+				}
+				nExit++
+				r.check(!unset[exit], "C02.R4", fmt.Sprintf("%s|success exit #%d sets the cause", key, nExit), posOf(c, ret),
+					"every path to this success return stores the cause for closing in the record",
+					"CloseCDR can return success without storing a cause in the record: the record keeps the cause it carried - a record that was re-opened after a partial closure (cause 1) and is closed by the release stays a partial record")
+			}
+		}
+	}
 	// who asks for which cause: a released session (and a one-time event) is closed normally,
 	// whatever the credit control of the same request reported
 	for _, g := range c.ModFuncs {
